@@ -39,12 +39,27 @@ ENGINES["health"] = {
         {"pkg": "component/outbound", "files": ["dialer_group.go"]},
         {"pkg": "control", "files": ["connectivity.go"]},
     ],
-    "harness": ["harness/control/health_test.go"],
+    "harness": ["harness/control/health_test.go", "harness/control/health_shared_test.go"],
     "quick_secs": 40, "thorough_secs": 500,
     "probes": ["health.real-connectivity-map", "health.suppression-window", "health.policy-switch", "health.reload-handover"],
 }
 
+ENGINES["relay"] = {
+    "pkg": "control",
+    "tags": "dae_stub_ebpf",
+    "test": "TestSimC05",
+    "instrument": [
+        {"pkg": "component/sniffing", "files": ["sniffer.go", "conn_sniffer.go"]},
+        {"pkg": "control", "files": ["tcp.go", "tcp_relay_core.go", "tcp_copy_engine.go", "tcp_copy_gather_linux.go", "tcp_sniff_policy.go"]},
+    ],
+    "harness": ["harness/control/relay_test.go", "harness/control/health_shared_test.go"],
+    "quick_secs": 40, "thorough_secs": 500,
+    "probes": ["relay.name-sniffed", "relay.idle-gap-survived", "relay.port53", "relay.server-first", "relay.data-after-client-halfclose"],
+}
+
 PROPS = {
+    "C05": {"engines": ["relay"], "rule_prefixes": ["c05-", "task-panic"]},
+    "C06": {"engines": ["relay"], "rule_prefixes": ["c06-", "c05-corrupt", "c05-healthy-cut", "c05-lost", "task-panic"]},
     "C13": {"engines": ["taskpool", "endpoint"]},
     "C16": {"engines": ["health"], "rule_exclude_prefixes": ["select-"]},
     "C15": {"engines": ["health"], "rule_prefixes": ["select-", "alive-set-index", "task-panic"]},
@@ -57,4 +72,5 @@ for _m in ("engines_kernsim", "engines_reload", "engines_dns"):
         _mod = importlib.import_module(_m)
         ENGINES.update(getattr(_mod, "ENGINES", {}))
         for _k, _v in getattr(_mod, "PROPS", {}).items():
-            PROPS.setdefault(_k, {"engines": []})["engines"] += _v["engines"]
+            _e = PROPS.setdefault(_k, dict(_v, engines=[]))
+            _e["engines"] = _e["engines"] + [x for x in _v["engines"] if x not in _e["engines"]]
